@@ -1,3 +1,4 @@
+import collections.abc
 from collections import OrderedDict
 
 from .base import _cls_init
@@ -20,6 +21,24 @@ def _get_properties_dict(properties):
         ) from e
 
 
+def _with_extension(obj, kwargs, version):
+    """
+    Get constructor arguments which include the extension a custom type was
+    defined with (``extension_name``), so that the base constructor sees it
+    like any other property value: it is stored in its specified place, and
+    is taken into account by everything computed at construction time.
+    """
+    ext = getattr(obj, 'with_extension', None)
+    extensions = kwargs.get('extensions')
+    if extensions is None:
+        extensions = {}
+    if ext and version != '2.0' and isinstance(extensions, collections.abc.Mapping):
+        extensions = dict(extensions)
+        extensions[ext] = class_for_type(ext, version, "extensions")()
+        kwargs = dict(kwargs, extensions=extensions)
+    return kwargs
+
+
 def _custom_object_builder(cls, type, properties, version, base_class):
     prop_dict = _get_properties_dict(properties)
 
@@ -29,13 +48,8 @@ def _custom_object_builder(cls, type, properties, version, base_class):
         _properties = prop_dict
 
         def __init__(self, **kwargs):
-            base_class.__init__(self, **kwargs)
+            base_class.__init__(self, **_with_extension(self, kwargs, version))
             _cls_init(cls, self, kwargs)
-            ext = getattr(self, 'with_extension', None)
-            if ext and version != '2.0':
-                if 'extensions' not in self._inner:
-                    self._inner['extensions'] = {}
-                self._inner['extensions'][ext] = class_for_type(ext, version, "extensions")()
 
     _CustomObject.__name__ = cls.__name__
 
@@ -75,13 +89,8 @@ def _custom_observable_builder(cls, type, properties, version, base_class, id_co
             _id_contributing_properties = id_contrib_props
 
         def __init__(self, **kwargs):
-            base_class.__init__(self, **kwargs)
+            base_class.__init__(self, **_with_extension(self, kwargs, version))
             _cls_init(cls, self, kwargs)
-            ext = getattr(self, 'with_extension', None)
-            if ext and version != '2.0':
-                if 'extensions' not in self._inner:
-                    self._inner['extensions'] = {}
-                self._inner['extensions'][ext] = class_for_type(ext, version, "extensions")()
 
     _CustomObservable.__name__ = cls.__name__
 
